@@ -60,7 +60,9 @@ package strategy
 //@   requires fresh_count: ghost_itCount == 0
 //@   requires key_kind: integerKey ==> ghost_itIntegerKeys == 1
 //@   modifies *
+//@   loop 0 invariant count_bounded: ghost_itCount < 4611686018427387904
 //@   loop 0 invariant predecessor_was_delivered: hasPrevKey ==> ghost_itCount >= 1
+//@   loop 0 invariant no_key_before_the_first: !hasPrevKey ==> ghost_itCount == 0
 //@   at_call fmt.Errorf#1 assert rejects_only_with_predecessor: ghost_itCount >= 2
 //@   after_call bytes.Compare#0 ghost loc_ordered := ite(ret0 < 0, 1, 0)
 //@   after_call strategy.cmpIntegerLittleEndian#0 ghost loc_ordered := ite(ret0 < 0, 1, 0)
